@@ -157,6 +157,17 @@ pub fn run(case: &Value, ctx: &Ctx) -> Outcome {
                     } else {
                         r.stdout
                     };
+                    if fmt == "text" {
+                        // ToolChain.tla: a text artefact CARRIES the precision of the step that wrote it (art.prec) - every finite
+                        // value is printed with exactly that many decimals (fewer cannot be within half a unit of the last one)
+                        let want_dec: usize = prec.parse().unwrap_or(0);
+                        let body = String::from_utf8_lossy(&produced);
+                        let bad = body.lines().skip(1).flat_map(|l| l.split_whitespace()).find(|t| {
+                            let finite = t.parse::<f64>().map_or(false, |v| v.is_finite());
+                            finite && t.split_once('.').map_or(0, |(_, d)| d.len()) != want_dec
+                        }).map(|t| t.to_string());
+                        out.check(bad.is_none(), || format!("toolchain/chain/{tool}-decimals"), || json!({"step": si, "args": args, "token": bad, "requested": want_dec}));
+                    }
                     match parse_any(&produced) {
                         Ok((sh, _, f)) => {
                             out.check(sh == shape, || "toolchain/chain/shape-changed".into(), || json!({"step": si, "got": sh, "want": shape}));
